@@ -44,8 +44,17 @@ type byteReader struct {
 
 func (r *byteReader) ReadByte() (byte, error) {
 	var buff = [1]byte{}
-	_, err := r.Read(buff[:])
-	return buff[0], err
+	for {
+		n, err := r.Read(buff[:])
+		if n > 0 {
+			// a reader may return data together with an error: deliver the byte,
+			// the error is reported by the next call.
+			return buff[0], nil
+		}
+		if nil != err {
+			return 0, err
+		}
+	}
 }
 
 // ToReader wrap message to io.Reader
